@@ -369,4 +369,190 @@ theorem inlineKey_cmp (a b : List Nat) (ha : isBytes a) (hb : isBytes b)
     · rw [hsw, r2 h.symm (by omega) hl]; simp [Ordering.swap, Nat.compare_eq_gt]; omega
   · rw [hsw, r1 h]; simp [Ordering.swap, Nat.compare_eq_gt]; omega
 
+
+/-! ### comparator plumbing: model = specification -/
+
+theorem cmpView_eq (a b : List Nat) (ha : isBytes a) (hb : isBytes b) :
+    cmpView a b = bytesCmp a b := by
+  unfold cmpView
+  split
+  · rename_i h
+    exact inlineKey_cmp a b ha hb (by have : VIEW_CMP_INLINE_L = MAX_INLINE_VIEW_LEN := rfl; omega)
+      (by have : VIEW_CMP_INLINE_R = MAX_INLINE_VIEW_LEN := rfl; omega)
+  · have := cmpBytesPrefixG_eq 4 0 0 (by omega) (by omega) a b ha hb
+    simpa [cmpBytesPrefixG] using this
+
+/-! model = spec for the comparator plumbing -/
+
+theorem nullsOf_none {α : Type} (col : List (Option α)) (h : nullsOf col = none) (i : Nat)
+    (hi : i < col.length) : (col.getD i none).isSome = true := by
+  unfold nullsOf at h
+  split at h
+  · simp at h
+  · rename_i hn
+    simp only [List.any_eq_true, not_exists, not_and] at hn
+    have := hn (col.getD i none) (by
+      rw [List.getD_eq_getElem?_getD, List.getElem?_eq_getElem hi]; simp)
+    cases hc : col.getD i none <;> simp_all
+
+theorem nullsOf_some {α : Type} (col : List (Option α)) (f : Nat → Bool) (h : nullsOf col = some f)
+    (i : Nat) : f i = (col.getD i none).isSome := by
+  unfold nullsOf at h
+  split at h
+  · simp at h; subst h; rfl
+  · simp at h
+
+theorem compareImpl_eq_spec {α : Type} (vcmp : α → α → Ordering) (dflt : α) (o : SortOptions)
+    (nl nr : Option (Nat → Bool)) (a b : Option α) (i j : Nat)
+    (fl : nl = none → a.isSome = true) (gl : ∀ f, nl = some f → f i = a.isSome)
+    (fr : nr = none → b.isSome = true) (gr : ∀ f, nr = some f → f j = b.isSome) :
+    compareImpl o.nullsFirst o.descending nl nr (fun _ _ => vcmp (a.getD dflt) (b.getD dflt)) i j
+      = compareSlot vcmp o a b := by
+  unfold compareImpl
+  cases nl <;> cases nr <;> cases a <;> cases b <;> cases hd : o.descending <;> cases hn : o.nullsFirst <;>
+    simp_all [compareSlot, applyDesc]
+
+theorem compareArr_eq_spec {α : Type} (vcmp : α → α → Ordering) (dflt : α) (o : SortOptions)
+    (l r : List (Option α)) (i j : Nat) (hi : i < l.length) (hj : j < r.length) :
+    compareArr vcmp dflt o l r i j = compareSlot vcmp o (l.getD i none) (r.getD j none) := by
+  unfold compareArr
+  exact compareImpl_eq_spec vcmp dflt o (nullsOf l) (nullsOf r) (l.getD i none) (r.getD j none) i j
+    (fun h => nullsOf_none l h i hi) (fun f h => nullsOf_some l f h i)
+    (fun h => nullsOf_none r h j hj) (fun f h => nullsOf_some r f h j)
+
+theorem lt_bne_eq : (Ordering.lt != Ordering.eq) = true := by decide
+theorem gt_bne_eq : (Ordering.gt != Ordering.eq) = true := by decide
+theorem eq_bne_eq : (Ordering.eq != Ordering.eq) = false := by decide
+
+theorem lexCompareModel_eq {ι : Type} (cs : List (ι → ι → Ordering)) (i j : ι) :
+    lexCompareModel cs i j = lexCmp cs i j := by
+  induction cs with
+  | nil => rfl
+  | cons c cs ih =>
+    unfold lexCompareModel at ih ⊢
+    simp only [List.map_cons, List.find?_cons, lexCmp]
+    cases hc : c i j <;> simp only [lt_bne_eq, gt_bne_eq, eq_bne_eq]
+    exact ih
+
+theorem listLoop_eq {α : Type} (cmp : α → α → Ordering) (l r : List α) :
+    listLoop cmp l r = lexList cmp l r := by
+  induction l generalizing r with
+  | nil => cases r <;> simp [listLoop, lexList, Nat.compare_eq_lt]
+  | cons x xs ih =>
+    cases r with
+    | nil => simp [listLoop, lexList, Nat.compare_eq_gt]
+    | cons y ys =>
+      have := ih ys
+      unfold listLoop at this ⊢
+      simp only [List.zipWith_cons_cons, List.find?_cons, lexList, List.length_cons]
+      cases hc : cmp x y <;> simp only [lt_bne_eq, gt_bne_eq, eq_bne_eq]
+      rw [← this]
+      have e : compare (xs.length + 1) (ys.length + 1) = compare xs.length ys.length := by
+        simp only [compare, compareOfLessAndEq]; simp
+      rw [e]
+
+
+/-! ### sort assembly -/
+
+theorem pairwise_of_forall_mem {α : Type} {R : α → α → Prop} {l : List α}
+    (h : ∀ a ∈ l, ∀ b ∈ l, R a b) : l.Pairwise R := by
+  induction l with
+  | nil => exact List.Pairwise.nil
+  | cons x xs ih =>
+    refine List.Pairwise.cons (fun b hb => h x (by simp) b (by simp [hb])) (ih ?_)
+    intro a ha b hb; exact h a (by simp [ha]) b (by simp [hb])
+
+theorem perm_take_drop2 {α : Type} (A B : List α) (m r : Nat) :
+    ((A.take m ++ B.take r) ++ (A.drop m ++ B.drop r)).Perm (A ++ B) := by
+  have h1 : (A.take m ++ A.drop m) = A := List.take_append_drop m A
+  have h2 : (B.take r ++ B.drop r) = B := List.take_append_drop r B
+  calc ((A.take m ++ B.take r) ++ (A.drop m ++ B.drop r)).Perm
+        (A.take m ++ (B.take r ++ (A.drop m ++ B.drop r))) := by rw [List.append_assoc]
+    _ |>.Perm (A.take m ++ (A.drop m ++ (B.take r ++ B.drop r))) := by
+        apply List.Perm.append_left
+        rw [← List.append_assoc, ← List.append_assoc]
+        exact List.Perm.append_right _ List.perm_append_comm
+    _ |>.Perm (A ++ B) := by rw [← List.append_assoc, h1, h2]
+
+/-- assembly with the nulls in front -/
+theorem assemble_nullsFirst {R : Nat → Nat → Prop} (N I : List Nat) (k lim : Nat)
+    (hNN : ∀ a ∈ N, ∀ b ∈ N, R a b) (hNI : ∀ a ∈ N, ∀ b ∈ I, R a b)
+    (hI : (I.take k).Pairwise R) (hIr : ∀ a ∈ I.take k, ∀ b ∈ I.drop k, R a b)
+    (hlim : lim ≤ N.length + I.length)
+    (hr : lim - min N.length lim = 0 ∨ lim - min N.length lim = k) :
+    let out := N.take (min N.length lim) ++ I.take (lim - (N.take (min N.length lim)).length)
+    let rest := N.drop (min N.length lim) ++ I.drop (lim - (N.take (min N.length lim)).length)
+    out.length = lim ∧ out.Pairwise R ∧ (out ++ rest).Perm (N ++ I) ∧ ∀ a ∈ out, ∀ b ∈ rest, R a b := by
+  have hlen : (N.take (min N.length lim)).length = min N.length lim := by
+    rw [List.length_take]; omega
+  simp only [hlen]
+  generalize hm : min N.length lim = m at *
+  generalize hrr : lim - m = r at *
+  have hNt : ∀ a ∈ N.take m, a ∈ N := fun a h => List.mem_of_mem_take h
+  have hNd : ∀ a ∈ N.drop m, a ∈ N := fun a h => List.mem_of_mem_drop h
+  have hIt : ∀ a ∈ I.take r, a ∈ I := fun a h => List.mem_of_mem_take h
+  have hId : ∀ a ∈ I.drop r, a ∈ I := fun a h => List.mem_of_mem_drop h
+  refine ⟨?_, ?_, perm_take_drop2 N I m r, ?_⟩
+  · rw [List.length_append, List.length_take, List.length_take]; omega
+  · rw [List.pairwise_append]
+    refine ⟨pairwise_of_forall_mem (fun a ha b hb => hNN a (hNt a ha) b (hNt b hb)), ?_,
+      fun a ha b hb => hNI a (hNt a ha) b (hIt b hb)⟩
+    rcases hr with h0 | hk
+    · rw [h0]; simp
+    · rw [hk]; exact hI
+  · intro a ha b hb
+    rw [List.mem_append] at ha hb
+    rcases ha with ha | ha
+    · rcases hb with hb | hb
+      · exact hNN a (hNt a ha) b (hNd b hb)
+      · exact hNI a (hNt a ha) b (hId b hb)
+    · rcases hr with h0 | hk
+      · rw [h0] at ha; simp at ha
+      · rcases hb with hb | hb
+        · -- a valid row is in the output only when all nulls are
+          have hpos : 0 < r := by
+            rcases Nat.eq_zero_or_pos r with h | h
+            · rw [h] at ha; simp at ha
+            · exact h
+          have : N.drop m = [] := by
+            apply List.drop_eq_nil_of_le; omega
+          rw [this] at hb; simp at hb
+        · rw [hk] at ha hb; exact hIr a ha b hb
+
+/-- assembly with the nulls at the end -/
+theorem assemble_nullsLast {R : Nat → Nat → Prop} (N I : List Nat) (lim : Nat)
+    (hNN : ∀ a ∈ N, ∀ b ∈ N, R a b) (hIN : ∀ a ∈ I, ∀ b ∈ N, R a b)
+    (hI : I.Pairwise R) (hlim : lim ≤ N.length + I.length) :
+    let out := I.take lim ++ N.take (lim - (I.take lim).length)
+    let rest := I.drop lim ++ N.drop (lim - (I.take lim).length)
+    out.length = lim ∧ out.Pairwise R ∧ (out ++ rest).Perm (I ++ N) ∧ ∀ a ∈ out, ∀ b ∈ rest, R a b := by
+  have hlen : (I.take lim).length = min lim I.length := List.length_take
+  simp only [hlen]
+  generalize hrr : lim - min lim I.length = r at *
+  have hNt : ∀ a ∈ N.take r, a ∈ N := fun a h => List.mem_of_mem_take h
+  have hNd : ∀ a ∈ N.drop r, a ∈ N := fun a h => List.mem_of_mem_drop h
+  have hIt : ∀ a ∈ I.take lim, a ∈ I := fun a h => List.mem_of_mem_take h
+  have hId : ∀ a ∈ I.drop lim, a ∈ I := fun a h => List.mem_of_mem_drop h
+  have hsplit : (I.take lim ++ I.drop lim).Pairwise R := by rw [List.take_append_drop]; exact hI
+  rw [List.pairwise_append] at hsplit
+  refine ⟨?_, ?_, perm_take_drop2 I N lim r, ?_⟩
+  · rw [List.length_append, List.length_take, List.length_take]; omega
+  · rw [List.pairwise_append]
+    exact ⟨hsplit.1, pairwise_of_forall_mem (fun a ha b hb => hNN a (hNt a ha) b (hNt b hb)),
+      fun a ha b hb => hIN a (hIt a ha) b (hNt b hb)⟩
+  · intro a ha b hb
+    rw [List.mem_append] at ha hb
+    rcases ha with ha | ha
+    · rcases hb with hb | hb
+      · exact hsplit.2.2 a ha b hb
+      · exact hIN a (hIt a ha) b (hNd b hb)
+    · rcases hb with hb | hb
+      · have hpos : 0 < r := by
+          rcases Nat.eq_zero_or_pos r with h | h
+          · rw [h] at ha; simp at ha
+          · exact h
+        have : I.drop lim = [] := by apply List.drop_eq_nil_of_le; omega
+        rw [this] at hb; simp at hb
+      · exact hNN a (hNt a ha) b (hNd b hb)
+
 end ArrowModel.C10
